@@ -22,7 +22,9 @@
     `val : Option V` (`none` = unspecified bytes).  A free slot's node overlays all three words and
     payload bytes 0..7 (`nodeNextInPageOff = sliceHdrLen`), hence `junk`.
   * `uint16` header counters and `uint32` class counters are modelled as `Nat`; `Props.C20.counters_fit`
-    shows they stay below 2^16 under the invariant (cap ≤ 65535 from the generated table).
+    shows that the uint16 HEADER fields stay below 2^16 under the invariant (cap ≤ 65535 from the generated
+    table).  The uint32 CLASS counters (freeSlots, pageCount) are not bounded by any theorem: a wrap needs
+    2^32 free slots of one class (≥ ~390 GB mapped) and is assumed away.
   * Ghost state: `live` (allocations handed out and not yet freed, with the value last written by the
     owner) and `relog` (the relocate callbacks of the last defrag pass).  The owner's `relocate` callback
     is modelled as "replace the old pointer by the new one".
